@@ -181,23 +181,7 @@ for _n in ('np.array', 'np.asanyarray', 'np.asarray'):
     M.FUNCS[_n] = m_array
 
 
-# ---- (1, n) row view and (reps, n) repeated rows
-_orig_method = M.method
-
-
-def method(ex, st, recv, name, args, kwargs, node):
-    r = st.deref(recv)
-    if name == 'reshape' and is_vec1(r) and len(args) == 1 and not kwargs:
-        shp = st.deref(args[0])
-        if isinstance(shp, (VTuple, VList)) and len(shp.items) == 2 and shp.items[0] == 1 and shp.items[1] == -1:
-            used('v.reshape((1, -1)) -> the vector as a 1 x n row')
-            out = VArr((1, r.shape[0]), None, 'rowmat', r.dtype)
-            out.vec = r
-            return out
-    return _orig_method(ex, st, recv, name, args, kwargs, node)
-
-
-M.method = method
+# ---- (reps, n) repeated rows of a (1, n) row view (the row view itself: _reshape_row / method2 below)
 _orig_repeat = M.FUNCS.get('np.repeat')
 
 
@@ -587,3 +571,641 @@ def arr_setitem2(ex, st, b, sl_, v, node):
 
 
 M.arr_setitem = arr_setitem2
+
+
+# ----------------------------------------------------------------------------------------------
+# tensors.rand_custom: integer vectors (products, concatenation with a literal head, cumulative sums) and the flat random
+# vector that is cut into Fortran-ordered cores
+fcut = z3.Function('fcut', RA, T.I, T.I, T.I, T.I, T.Core)     # np.reshape(v[lo:lo+a*b*c], (a, b, c), order='F')
+fcutC = z3.Function('fcutC', RA, T.I, T.I, T.I, T.I, T.Core)   # the same in C order (only shows up in wrong code)
+_v = z3.Const('v!f', RA)
+_lo, _p, _q, _r = z3.Ints('lo!f p!f q!f r!f')
+T.GROUPS['fcut'] = [
+    T.A([_v, _lo, _p, _q, _r], z3.And(T.d0(fcut(_v, _lo, _p, _q, _r)) == _p, T.d1(fcut(_v, _lo, _p, _q, _r)) == _q,
+                                      T.d2(fcut(_v, _lo, _p, _q, _r)) == _r), [fcut(_v, _lo, _p, _q, _r)]),
+    T.A([_v, _lo, _p, _q, _r], z3.And(T.d0(fcutC(_v, _lo, _p, _q, _r)) == _p, T.d1(fcutC(_v, _lo, _p, _q, _r)) == _q,
+                                      T.d2(fcutC(_v, _lo, _p, _q, _r)) == _r), [fcutC(_v, _lo, _p, _q, _r)]),
+]
+
+
+def _groupings(fs):
+    """All ways of writing the product of 2 or 3 dimension terms with the binary mulI (the real product is associative and
+    commutative; mulI only knows commutativity)."""
+    if len(fs) == 2:
+        return [T.mulI(fs[0], fs[1])]
+    a, b, c = fs
+    return [T.mulI(T.mulI(a, b), c), T.mulI(T.mulI(a, c), b), T.mulI(T.mulI(b, c), a)]
+
+
+_orig_binop3 = M.arr_binop
+
+
+def arr_binop3(ex, st, op, l, r, node):
+    if isinstance(op, ast.Mult) and is_vec1(l) and is_vec1(r) and l.tag == 'ivec' and r.tag == 'ivec' and l.dtype == 'i' and r.dtype == 'i':
+        fs = list(getattr(l, 'factors', [l.t])) + list(getattr(r, 'factors', [r.t]))
+        if len(fs) <= 3:
+            used('integer vector * integer vector -> elementwise product (requires equal lengths), in the product abstraction mulI')
+            ex.oblige(st, 'call-pre', 'elementwise-shapes-agree', Z(l.shape[0]) == Z(r.shape[0]), node)
+            arr = ex.fresh('ivprod', IA)
+            st.assume(z3.ForAll([_i], z3.And([arr[_i] == g for g in _groupings([f[_i] for f in fs])]), patterns=[arr[_i]]))
+            out = ivec(l.shape[0], arr)
+            out.factors = fs
+            out.pos = bool(getattr(l, 'pos', False) and getattr(r, 'pos', False))       # flag of ttvc/shp.py (entries >= 1)
+            return out
+    return _orig_binop3(ex, st, op, l, r, node)
+
+
+M.arr_binop = arr_binop3
+_orig_concat = M.FUNCS['np.concatenate']
+
+
+@model('np.concatenate')
+def m_concat_head(ex, st, args, kwargs, node):
+    parts = st.deref(args[0]) if args else None
+    if isinstance(parts, (VList, VTuple)) and len(parts.items) == 2 and not kwargs and len(args) == 1:
+        head, tail = [st.deref(x) for x in parts.items]
+        if isinstance(head, VList) and head.items and all(isinstance(x, int) for x in head.items) and is_vec1(tail) and tail.tag == 'ivec':
+            used('np.concatenate(([c0, ..], v)) -> the literal head followed by the elements of v')
+            m = len(head.items)
+            arr = ex.fresh('cat', IA)
+            for k, x in enumerate(head.items):
+                st.assume(arr[k] == x)
+            st.assume(z3.ForAll([_i], z3.Implies(_i >= m, arr[_i] == tail.t[_i - m]), patterns=[arr[_i]]))
+            return ivec(Z(tail.shape[0]) + m, arr)
+    return _orig_concat(ex, st, args, kwargs, node)
+
+
+_orig_cumsum = M.FUNCS['np.cumsum']
+
+
+@model('np.cumsum')
+def m_cumsum_int(ex, st, args, kwargs, node):
+    v = st.deref(args[0]) if args else None
+    if is_vec1(v) and v.tag == 'ivec' and len(args) == 1 and not kwargs:
+        used('np.cumsum(v) -> c with c[0] = v[0], c[t+1] = c[t] + v[t+1]; non-decreasing if every element of v is >= 0')
+        n = Z(v.shape[0])
+        c = ex.fresh('cum', IA)
+        i2 = z3.Int('i2!m')
+        st.assume(c[0] == v.t[0])
+        st.assume(z3.ForAll([_i, i2], z3.Implies(z3.And(0 <= _i, i2 == _i + 1), c[i2] == c[_i] + v.t[i2]), patterns=[z3.MultiPattern(c[_i], c[i2])]))
+        st.assume(z3.Implies(z3.ForAll([_i], z3.Implies(z3.And(0 <= _i, _i < n), v.t[_i] >= 0), patterns=[v.t[_i]]),
+                             z3.ForAll([_i, i2], z3.Implies(z3.And(0 <= _i, _i <= i2, i2 < n), c[_i] <= c[i2]), patterns=[z3.MultiPattern(c[_i], c[i2])])))
+        return ivec(v.shape[0], c)
+    return _orig_cumsum(ex, st, args, kwargs, node)
+
+
+_orig_method3 = M.method
+
+
+def method3(ex, st, recv, name, args, kwargs, node):
+    r = st.deref(recv)
+    if name == 'astype' and is_vec1(r) and r.tag == 'ivec' and r.dtype == 'i' and len(args) == 1 and not kwargs \
+            and isinstance(args[0], M.TypeVal) and args[0].name == 'int':
+        used('int_vector.astype(int) -> the same vector')
+        return r
+    return _orig_method3(ex, st, recv, name, args, kwargs, node)
+
+
+M.method = method3
+_orig_index = M.arr_index
+
+
+def arr_index(ex, st, a, sl_, node):
+    if is_vec1(a) and a.tag == 'rvec' and isinstance(sl_, ast.Slice) and sl_.step is None and sl_.lower is not None and sl_.upper is not None:
+        lo = ex.need_num(st, ex.ev(sl_.lower, st), node)
+        hi = ex.need_num(st, ex.ev(sl_.upper, st), node)
+        if is_intsort(lo) and is_intsort(hi):
+            used('v[lo:hi] of a float vector -> the block of hi - lo consecutive elements starting at lo (0 <= lo <= hi <= len required here)')
+            ex.oblige(st, 'safety', 'slice-in-range', z3.And(Z(lo) >= 0, Z(lo) <= Z(hi), Z(hi) <= Z(a.shape[0])), node)
+            out = VArr((Z(hi) - Z(lo),), None, 'flatcut', a.dtype)
+            out.base, out.lo = a.t, Z(lo)
+            return out
+    return _orig_index(ex, st, a, sl_, node)
+
+
+M.arr_index = arr_index
+_orig_reshape = M.reshape
+
+
+def reshape(ex, st, a, shp, order, node):
+    if isinstance(a, VArr) and a.tag == 'flatcut':
+        dims = M.shape_arg(ex, st, shp, node)
+        o = order.concrete() if isinstance(order, VStr) else None
+        if len(dims) == 3 and all(is_intsort(x) and not (isinstance(x, int) and x < 0) for x in dims) and o in ('F', 'C'):
+            used("block.reshape((a, b, c), order) of a block of a flat vector -> the core filled in that order; the size must be preserved")
+            ex.oblige(st, 'call-pre', 'reshape-preserves-size', Z(a.shape[0]) == T.mul_canon(*dims), node)
+            t = (fcut if o == 'F' else fcutC)(a.base, a.lo, Z(dims[0]), Z(dims[1]), Z(dims[2]))
+            return VArr(tuple(dims), t, 'core')
+        raise Unsupported('reshape pattern of a block of the flat vector')
+    return _orig_reshape(ex, st, a, shp, order, node)
+
+
+M.reshape = reshape
+
+
+# ----------------------------------------------------------------------------------------------
+# draws from a numpy Generator (ttvc/rnd.py: VGen): every draw is appended to the draw log  st.ghost['drawlog']  as a dict
+# (gen, method, params, shape, out, idx); idx = st.ghost['ndraw'] (z3 Int, position of the draw in the stream of this run)
+
+def log_draw(st, gen, method_, params, shape, out):
+    idx = st.ghost.get('ndraw', z3.IntVal(0))
+    st.ghost['drawlog'] = st.ghost.get('drawlog', []) + [dict(gen=gen, method=method_, params=params, shape=list(shape), out=out, idx=idx)]
+    st.ghost['ndraw'] = idx + 1
+
+
+_orig_method4 = M.method
+
+
+def method4(ex, st, recv, name, args, kwargs, node):
+    r = st.deref(recv)
+    if isinstance(r, R.VGen) and name in ('uniform', 'normal') and len(args) == 2 and set(kwargs) == {'size'}:
+        p0, p1 = [to_real(ex.need_num(st, a, node)) for a in args]
+        shp = M.shape_arg(ex, st, kwargs['size'], node)
+        used(f'Generator.{name}(p0, p1, size=shape) -> float array of that shape (integer dimensions >= 0 required); uniform: entries in [p0, p1]')
+        for s_ in shp:
+            ex.oblige(st, 'call-pre', 'draw-size-is-a-non-negative-integer', z3.And(z3.BoolVal(is_intsort(s_)), Z(s_) >= 0), node)
+        if len(shp) == 1:
+            arr = ex.fresh(name, RA)
+            if name == 'uniform':
+                st.assume(z3.ForAll([_i], z3.Implies(p0 <= p1, z3.And(p0 <= arr[_i], arr[_i] <= p1)), patterns=[arr[_i]]))
+            out = rvec(shp[0], arr)
+            log_draw(st, r, name, (p0, p1), shp, arr)
+            return out
+        if len(shp) == 3:
+            t = ex.fresh(name, T.Core)
+            st.assume(T.d0(t) == Z(shp[0]), T.d1(t) == Z(shp[1]), T.d2(t) == Z(shp[2]))
+            st.ghost['draws'] = st.ghost.get('draws', 0) + 1
+            log_draw(st, r, name, (p0, p1), shp, t)
+            return M.mk_core(t)
+        raise Unsupported(f'Generator.{name} with a {len(shp)}-dimensional size')
+    return _orig_method4(ex, st, recv, name, args, kwargs, node)
+
+
+M.method = method4
+
+
+# ----------------------------------------------------------------------------------------------
+# tensors.rand_stab: rectangular identity np.eye(a, b), `G[:, p, :] += X`, and the stream of 3-D draws of a generator
+eyer = z3.Function('eyer', T.I, T.I, T.Mat)                       # np.eye(a, b)
+drawc = z3.Function('drawc', T.I, T.I, T.Core)                    # the core returned by draw number idx of this run from generator #gid (no axioms)
+_a1, _b1, _c1, _p1 = z3.Ints('a!e b!e c!e p!e')
+T.GROUPS['eyer'] = [
+    T.A([_a1, _b1], z3.And(T.rows(eyer(_a1, _b1)) == _a1, T.cols(eyer(_a1, _b1)) == _b1), [eyer(_a1, _b1)]),
+    T.A([_a1, _b1, _p1, _c1], z3.Implies(z3.And(_p1 == _b1, _a1 >= 0, _b1 >= 0, _c1 >= 0, z3.Or(_b1 >= _a1, _b1 >= _c1)),
+                                         T.mm(eyer(_a1, _b1), eyer(_p1, _c1)) == eyer(_a1, _c1)), [T.mm(eyer(_a1, _b1), eyer(_p1, _c1))]),
+    T.A([_a1, _b1, _p1, _c1], z3.Implies(z3.And(0 <= _p1, _p1 < _a1, 0 <= _c1, _c1 < _b1), T.ent(eyer(_a1, _b1), _p1, _c1) == z3.If(_p1 == _c1, 1, 0)),
+        [T.ent(eyer(_a1, _b1), _p1, _c1)]),
+]
+_GID = [0]
+
+
+def gen_id(g):
+    if not hasattr(g, 'gid'):
+        _GID[0] += 1
+        g.gid = z3.IntVal(_GID[0])
+    return g.gid
+
+
+_orig_eye = M.FUNCS['np.eye']
+
+
+@model('np.eye')
+def m_eye2(ex, st, args, kwargs, node):
+    if len(args) == 2 and not kwargs:
+        a, b = [ex.need_num(st, x, node) for x in args]
+        if is_intsort(a) and is_intsort(b):
+            used('np.eye(a, b) -> the a x b matrix with ones on the main diagonal (a, b >= 0 required)')
+            ex.oblige(st, 'call-pre', 'non-negative-dimension', z3.And(Z(a) >= 0, Z(b) >= 0), node)
+            return VArr((a, b), eyer(Z(a), Z(b)), 'mat')
+        raise Unsupported('np.eye with non-integer dimensions')
+    return _orig_eye(ex, st, args, kwargs, node)
+
+
+_orig_setitem3 = M.arr_setitem
+
+
+def arr_setitem3(ex, st, b, sl_, v, node):
+    """G[:, p, :] += X  (arrives here as G[:, p, :] = madd(sl(G, p), X))."""
+    if isinstance(b, VArr) and b.ndim == 3 and b.tag == 'core' and b.t is not None and isinstance(sl_, ast.Tuple) and len(sl_.elts) == 3:
+        full = lambda e: isinstance(e, ast.Slice) and e.lower is None and e.upper is None and e.step is None
+        e0, e1, e2 = sl_.elts
+        val = st.deref(v)
+        if full(e0) and full(e2) and not isinstance(e1, ast.Slice) and isinstance(val, VArr) and val.ndim == 2 and val.tag == 'mat' \
+                and val.t is not None and z3.is_app(val.t) and val.t.decl().eq(T.madd) and z3.is_app(val.t.arg(0)) and val.t.arg(0).decl().eq(T.sl) \
+                and z3.eq(val.t.arg(0).arg(0), b.t):
+            m = M.norm_index(ex, st, ex.need_num(st, ex.ev(e1, st), node), b.shape[1], node, 'mode-index')
+            if z3.eq(z3.simplify(val.t.arg(0).arg(1)), z3.simplify(Z(m))):
+                used('G[:, p, :] += X -> slice p becomes sl(G, p) + X (shapes must agree)')
+                ex.oblige(st, 'call-pre', 'slice-assignment-shape-matches', z3.And(Z(val.shape[0]) == Z(b.shape[0]), Z(val.shape[1]) == Z(b.shape[2])), node)
+                return VArr(b.shape, csl(b.t, Z(m), val.t), 'core')
+    return _orig_setitem3(ex, st, b, sl_, v, node)
+
+
+M.arr_setitem = arr_setitem3
+_orig_method5 = M.method
+
+
+def method5(ex, st, recv, name, args, kwargs, node):
+    r = st.deref(recv)
+    nlog = len(st.ghost.get('drawlog', []))
+    out = _orig_method5(ex, st, recv, name, args, kwargs, node)
+    log = st.ghost.get('drawlog', [])
+    if isinstance(r, R.VGen) and len(log) == nlog + 1 and len(log[-1]['shape']) == 3 and log[-1]['gen'] is r:
+        st.assume(log[-1]['out'] == drawc(gen_id(r), log[-1]['idx']))      # names the draw: "draw number idx from this generator"
+    return out
+
+
+M.method = method5
+
+
+# ----------------------------------------------------------------------------------------------
+# sample.sample_rand / sample_square: Generator.choice with replacement, lists of drawn index vectors, np.vstack(..).T
+
+def _population(ex, st, a, node):
+    """Size of the population of Generator.choice(a, ..): an int n stands for arange(n)."""
+    a = st.deref(a)
+    if isinstance(a, VArr) and a.ndim == 1 and getattr(a, 'arange_n', None) is not None:
+        return a.arange_n
+    if is_num(a) and is_intsort(a):
+        return Z(a)
+    return None
+
+
+_orig_method6 = M.method
+
+
+def method6(ex, st, recv, name, args, kwargs, node):
+    r = st.deref(recv)
+    if isinstance(r, R.VGen) and name == 'choice' and args and kwargs.get('replace', True) is True and set(kwargs) <= {'size', 'p', 'replace'}:
+        pop = _population(ex, st, args[0], node)
+        size = args[1] if len(args) == 2 else kwargs.get('size')
+        if pop is not None and len(args) <= 2 and not (len(args) == 2 and 'size' in kwargs):
+            used('Generator.choice(a, size, p, replace=True) (a: int n or arange(n)) -> size indices in [0, n) (one index without size); '
+                 'requires n >= 1, len(p) = n')
+            ex.oblige(st, 'call-pre', 'choice-from-a-non-empty-population', pop >= 1, node)
+            pv = st.deref(kwargs['p']) if 'p' in kwargs else None
+            if isinstance(pv, VArr) and pv.ndim == 1:
+                ex.oblige(st, 'call-pre', 'choice-probabilities-have-the-length-of-the-population', Z(pv.shape[0]) == pop, node)
+            elif pv is not None and not isinstance(pv, VOpaque):
+                raise Unsupported('Generator.choice: probabilities')
+            if size is None:
+                c = ex.fresh_int('choice')
+                st.assume(0 <= c, c < pop)
+                log_draw(st, r, 'choice', (pop, 'p' in kwargs), [], c)
+                return c
+            s_ = ex.need_num(st, size, node)
+            ex.oblige(st, 'call-pre', 'draw-size-is-a-non-negative-integer', z3.And(z3.BoolVal(is_intsort(s_)), Z(s_) >= 0), node)
+            arr = ex.fresh('choice', IA)
+            st.assume(z3.ForAll([_i], z3.And(0 <= arr[_i], arr[_i] < pop), patterns=[arr[_i]]))
+            out = ivec(s_, arr)
+            out.lo, out.hi = z3.IntVal(0), pop
+            log_draw(st, r, 'choice', (pop, 'p' in kwargs), [s_], arr)
+            return out
+    return _orig_method6(ex, st, recv, name, args, kwargs, node)
+
+
+M.method = method6
+
+
+class VRows(VSeq):
+    """List of d integer vectors of one common length m (row j = arr[j], an Int -> Int array)."""
+    def __init__(self, arr, n, m):
+        VSeq.__init__(self, arr, n, lambda t, m=m: ivec(m, t), 'ivrows')
+        self.m = m
+
+    def copy(self):
+        return VRows(self.arr, self.n, self.m)
+
+
+def _consts_after(term, cnt0):
+    """Names of the engine-made fresh constants (name!N with N > cnt0) that occur in a term."""
+    out, stack, seen = set(), [term], set()
+    while stack:
+        t = stack.pop()
+        if t.get_id() in seen:
+            continue
+        seen.add(t.get_id())
+        if z3.is_const(t) and t.decl().kind() == z3.Z3_OP_UNINTERPRETED:
+            nm = t.decl().name()
+            if '!' in nm and nm.rsplit('!', 1)[1].isdigit() and int(nm.rsplit('!', 1)[1]) > cnt0:
+                out.add(nm)
+        elif z3.is_app(t):
+            stack.extend(t.children())
+        elif z3.is_quantifier(t):
+            stack.append(t.body())
+    return out
+
+
+_orig_listcomp2 = M.listcomp
+
+
+def listcomp2(ex, st, e):
+    """[rand.choice(population(k), m) for k in n]: one draw per element, in the order of the elements."""
+    g = e.generators[0] if len(e.generators) == 1 else None
+    if g is None or g.ifs or not any(isinstance(x, ast.Call) and isinstance(x.func, ast.Attribute) and x.func.attr == 'choice' for x in ast.walk(e.elt)):
+        return _orig_listcomp2(ex, st, e)
+    it = M.iteration(ex, st, g.iter, e)
+    if it.concrete is not None:
+        return _orig_listcomp2(ex, st, e)
+    cnt0, npc, saved = ex.cnt, len(st.pc), dict(st.vars)
+    nd0, log0 = st.ghost.get('ndraw', z3.IntVal(0)), st.ghost.get('drawlog', [])
+    j = ex.fresh_int('lc')
+    cnt0 = ex.cnt
+    st.pc.append(z3.And(j >= 0, j < it.n))
+    st.ghost['ndraw'], st.ghost['drawlog'] = nd0 + j, []
+    try:
+        ex.assign(g.target, it.bind(ex, st, j), st)
+        elt = st.deref(ex.ev(e.elt, st))
+    finally:
+        for k in list(st.vars):
+            if k not in saved:
+                del st.vars[k]
+            else:
+                st.vars[k] = saved[k]
+    new = st.ghost.get('drawlog', [])
+    del st.pc[npc:]                      # facts about the per-element fresh symbols are dropped; what is kept is stated below for every j
+    if not (is_vec1(elt) and elt.tag == 'ivec' and getattr(elt, 'hi', None) is not None and len(new) == 1 and new[0]['out'] is elt.t):
+        raise Unsupported('list comprehension with draws: the element must be the result of exactly one Generator.choice')
+    hi, m = elt.hi, Z(elt.shape[0])
+    if _consts_after(hi, cnt0) or _consts_after(m, cnt0) or M._mentions(m, j):
+        raise Unsupported('list comprehension with draws: population / size depend on per-element intermediate values')
+    used('[rand.choice(population_k, m) for k in seq] -> one draw per element in list order; list of len(seq) index vectors of length m, '
+         'vector k with entries in [0, population_k)')
+    rows = ex.fresh('rows', z3.ArraySort(z3.IntSort(), IA))
+    st.assume(z3.ForAll([j, _i], z3.Implies(z3.And(0 <= j, j < it.n), z3.And(0 <= rows[j][_i], rows[j][_i] < hi)), patterns=[rows[j][_i]]))
+    fam = dict(new[0])
+    fam.update(idx=nd0 + j, family=(j, it.n), out=rows)
+    st.ghost['drawlog'] = log0 + [fam]
+    st.ghost['ndraw'] = nd0 + it.n
+    return st.alloc(VRows(rows, it.n, m))
+
+
+M.listcomp = listcomp2
+
+
+@model('np.vstack')
+def m_vstack(ex, st, args, kwargs, node):
+    v = st.deref(args[0]) if args else None
+    if isinstance(v, VRows) and len(args) == 1 and not kwargs:
+        used('np.vstack(list of d vectors of length m) -> d x m matrix whose rows are the vectors (d >= 1 required)')
+        ex.oblige(st, 'call-pre', 'vstack-needs-at-least-one-array', v.n >= 1, node)
+        out = VArr((v.n, v.m), None, 'imat', 'i')
+        out.rows, out.transposed = v.arr, False
+        return out
+    raise Unsupported('np.vstack pattern')
+
+
+def imat_entry(a, i, j):
+    """Entry [i, j] of an 'imat' array (rows stacked by np.vstack, possibly transposed)."""
+    return a.rows[j][i] if a.transposed else a.rows[i][j]
+
+
+_orig_attribute2 = M.attribute
+
+
+def attribute2(ex, st, v, attr, node):
+    if isinstance(v, VArr) and v.tag == 'imat' and attr == 'T':
+        used('ndarray.T of a matrix -> transposed')
+        out = VArr((v.shape[1], v.shape[0]), None, 'imat', v.dtype)
+        out.rows, out.transposed = v.rows, not v.transposed
+        return out
+    return _orig_attribute2(ex, st, v, attr, node)
+
+
+M.attribute = attribute2
+
+
+# ----------------------------------------------------------------------------------------------
+# sample.sample_square (control / shape tier, lenient): only active for executors with `ex.misc_shapes = True`, so that the
+# lenient units of other modules keep seeing opaque values where they did before
+def _on(ex):
+    return getattr(ex, 'misc_shapes', False)
+
+
+_orig_iteration = M.iteration
+
+
+def iteration(ex, st, it, node):
+    if _on(ex) and isinstance(it, ast.Call) and ast.unparse(it.func) == 'enumerate' and len(it.args) == 1 \
+            and [k.arg for k in it.keywords] == ['start']:
+        start = Z(ex.need_num(st, ex.ev(it.keywords[0].value, st), node))
+        inner = _orig_iteration(ex, st, it.args[0], node)
+        used('enumerate(seq, start=s) -> pairs (s + j, seq[j])')
+        if inner.concrete is not None:
+            return M.Iteration(concrete=[VTuple([z3.simplify(start + i), b]) for i, b in enumerate(inner.concrete)])
+        return M.Iteration(n=inner.n, bind=lambda ex_, st_, j: VTuple([start + j, inner.bind(ex_, st_, j)]))
+    return _orig_iteration(ex, st, it, node)
+
+
+M.iteration = iteration
+_orig_iter_of_value = M._iter_of_value
+
+
+def _iter_of_value(ex, st, v, node):
+    w = st.deref(v)
+    if _on(ex) and isinstance(w, VArr) and w.ndim == 3:
+        used('iteration over a 3-D array -> its 2-D slices along the first axis')
+        return Z(w.shape[0]), (lambda j, w=w: VArr(tuple(w.shape[1:]), None, None, w.dtype)), False
+    return _orig_iter_of_value(ex, st, v, node)
+
+
+M._iter_of_value = _iter_of_value
+_orig_reshape2 = M.reshape
+
+
+def reshape2(ex, st, a, shp, order, node):
+    if _on(ex) and isinstance(a, VArr) and a.ndim == 3:
+        dims = M.shape_arg(ex, st, shp, node)
+        if len(dims) == 2 and all(is_intsort(x) and not (isinstance(x, int) and x < 0) for x in dims):
+            used('G.reshape(a, b) of a 3-D array -> a x b matrix; the size must be preserved (shape only)')
+            ex.oblige(st, 'call-pre', 'reshape-preserves-size', T.mul_canon(*a.shape) == T.mul_canon(*dims), node)
+            return VArr(tuple(dims), None, None, a.dtype)
+    return _orig_reshape2(ex, st, a, shp, order, node)
+
+
+M.reshape = reshape2
+_orig_einsum = M.FUNCS['np.einsum']
+
+
+@model('np.einsum')
+def m_einsum_kr(ex, st, args, kwargs, node):
+    sub = args[0].concrete() if args and isinstance(args[0], VStr) else None
+    if _on(ex) and (sub or '').replace(' ', '') == 'kr,riq->kiq' and len(args) == 3 and set(kwargs) <= {'optimize'}:
+        Q, G = st.deref(args[1]), st.deref(args[2])
+        if isinstance(Q, VArr) and Q.ndim == 2 and isinstance(G, VArr) and G.ndim == 3:
+            used("np.einsum('kr,riq->kiq', Q, G) -> array of shape (rows Q, n, r2); requires cols Q = r1 (shape only)")
+            ex.oblige(st, 'call-pre', 'einsum-contracted-dimensions-agree', Z(Q.shape[1]) == Z(G.shape[0]), node)
+            return VArr((Q.shape[0], G.shape[1], G.shape[2]), None, None)
+    return _orig_einsum(ex, st, args, kwargs, node)
+
+
+@model('np.unique')
+def m_unique(ex, st, args, kwargs, node):
+    a = st.deref(args[0]) if args else None
+    if _on(ex) and isinstance(a, VArr) and a.ndim == 2 and len(args) == 1 and kwargs.get('axis') == 0 and set(kwargs) == {'axis'}:
+        used('np.unique(A, axis=0) -> the distinct rows of A (sorted): u x cols with u <= rows and u >= 1 if rows >= 1')
+        u = ex.fresh_int('nunique')
+        st.assume(u >= 0, u <= Z(a.shape[0]), z3.Implies(Z(a.shape[0]) >= 1, u >= 1))
+        st.ghost['nunique'] = st.ghost.get('nunique', []) + [u]
+        return VArr((u, a.shape[1]), None, None, a.dtype)
+    if ex.lenient:
+        return VOpaque('np.unique')
+    raise Unsupported('np.unique pattern')
+
+
+_orig_method7 = M.method
+
+
+def method7(ex, st, recv, name, args, kwargs, node):
+    r = st.deref(recv)
+    if isinstance(r, R.VGen) and name == 'shuffle' and len(args) == 1 and not kwargs:
+        out = _orig_method7(ex, st, recv, name, args, kwargs, node)
+        log_draw(st, r, 'shuffle', (), [], args[0])
+        return out
+    if _on(ex) and isinstance(r, VArr) and r.t is None and name == 'astype' and len(args) == 1 and not kwargs and isinstance(args[0], M.TypeVal) \
+            and args[0].name in ('int', 'float'):
+        used('A.astype(int | float) -> array of the same shape with that dtype')
+        return VArr(r.shape, None, None, 'i' if args[0].name == 'int' else 'f')
+    return _orig_method7(ex, st, recv, name, args, kwargs, node)
+
+
+M.method = method7
+
+
+# ----------------------------------------------------------------------------------------------
+# stat.cdf_getter: sorted sample, np.linspace, np.r_[head, v], np.searchsorted(.., 'right') and the returned closure
+cntle = z3.Function('cntle', RA, T.I, T.R, T.I)      # number of k < n with a[k] <= z
+ascp = z3.Function('ascp', RA, T.I, T.B)             # a[0] <= a[1] <= .. <= a[n-1]
+_s = z3.Const('a!c', RA)
+_nn, _ii, _i3 = z3.Ints('n!c i!c i3!c')
+_z1, _z2 = z3.Reals('z!c z2!c')
+T.GROUPS['cntle'] = [
+    T.A([_s, _nn, _z1], z3.Implies(_nn >= 0, z3.And(0 <= cntle(_s, _nn, _z1), cntle(_s, _nn, _z1) <= _nn)), [cntle(_s, _nn, _z1)]),
+    T.A([_s, _nn, _z1, _z2], z3.Implies(_z1 <= _z2, cntle(_s, _nn, _z1) <= cntle(_s, _nn, _z2)),
+        [z3.MultiPattern(cntle(_s, _nn, _z1), cntle(_s, _nn, _z2))]),
+    # in an ascending vector the insertion point "a[i-1] <= z < a[i]" is the number of elements <= z
+    T.A([_s, _nn, _z1, _ii], z3.Implies(z3.And(ascp(_s, _nn), 0 <= _ii, _ii <= _nn, z3.Implies(_ii > 0, _s[_ii - 1] <= _z1), z3.Implies(_ii < _nn, _z1 < _s[_ii])),
+                                        cntle(_s, _nn, _z1) == _ii), [z3.MultiPattern(ascp(_s, _nn), cntle(_s, _nn, _z1), _s[_ii])]),
+]
+
+
+class RCat:
+    """np.r_"""
+
+
+M.GLOBAL_NAMES['np.r_'] = RCat()
+_orig_array4 = M.FUNCS['np.array']
+
+
+def m_array4(ex, st, args, kwargs, node):
+    if len(args) == 1 and set(kwargs) == {'copy'} and kwargs['copy'] is True:
+        v = st.deref(args[0])
+        if isinstance(v, VSeq) and v.tag == 'real':
+            used('np.array(list of floats, copy=True) -> a new vector with the same elements')
+            return rvec(v.n, v.arr)
+        if is_vec1(v) and v.tag == 'rvec':
+            used('np.array(vector, copy=True) -> a new vector with the same elements')
+            return rvec(v.shape[0], v.t)
+        raise Unsupported('np.array(x, copy=True) of this value')
+    return _orig_array4(ex, st, args, kwargs, node)
+
+
+M.FUNCS['np.array'] = m_array4
+
+
+@model('np.linspace')
+def m_linspace(ex, st, args, kwargs, node):
+    if len(args) != 3 or kwargs:
+        raise Unsupported('np.linspace calling pattern')
+    a, b, n = [ex.need_num(st, x, node) for x in args]
+    if not is_intsort(n):
+        raise Unsupported('np.linspace with a non-integer count')
+    used('np.linspace(a, b, n) -> n equidistant points: y[0] = a, y[k] (n-1) = a (n-1) + k (b-a), y[n-1] = b for n >= 2 (n >= 1 required here)')
+    ex.oblige(st, 'call-pre', 'linspace-count-positive', Z(n) >= 1, node)
+    y = ex.fresh('linspace', RA)
+    a_, b_, nr = to_real(a), to_real(b), z3.ToReal(Z(n))
+    st.assume(y[0] == a_, z3.Implies(Z(n) >= 2, y[Z(n) - 1] == b_))
+    out = rvec(n, y)
+    out.linspace = (a_, b_, Z(n))            # the defining relation is handed out per instance (non-linear): see linspace_fact
+    return out
+
+
+def linspace_fact(v, k):
+    a_, b_, n = v.linspace
+    return z3.Implies(z3.And(0 <= k, k < n), v.t[k] * (z3.ToReal(n) - 1) == a_ * (z3.ToReal(n) - 1) + z3.ToReal(k) * (b_ - a_))
+
+
+_orig_subscript = M.subscript
+
+
+def subscript(ex, st, base, sl_, node):
+    b = st.deref(base)
+    if isinstance(b, RCat):
+        if not (isinstance(sl_, ast.Tuple) and len(sl_.elts) == 2):
+            raise Unsupported('np.r_ pattern')
+        head_src = ast.unparse(sl_.elts[0]).replace(' ', '')
+        tail = st.deref(ex.ev(sl_.elts[1], st))
+        if not (is_vec1(tail) and tail.tag == 'rvec'):
+            raise Unsupported('np.r_[c, v] with something else than a float vector v')
+        used('np.r_[c, v] -> the vector (c, v[0], v[1], ..); c = -np.inf is kept symbolic (smaller than every real: A-REAL has no infinities)')
+        arr = ex.fresh('r_', RA)
+        st.assume(z3.ForAll([_i], z3.Implies(_i >= 1, arr[_i] == tail.t[_i - 1]), patterns=[arr[_i]]))
+        out = rvec(Z(tail.shape[0]) + 1, arr)
+        out.tail = tail
+        if head_src == '-np.inf':
+            out.neginf_head = True
+        else:
+            c = ex.need_num(st, ex.ev(sl_.elts[0], st), node)
+            st.assume(arr[0] == to_real(c))
+        for a_ in ('linspace',):
+            if hasattr(tail, a_):
+                out.tail_linspace = tail
+        return out
+    return _orig_subscript(ex, st, base, sl_, node)
+
+
+M.subscript = subscript
+
+
+@model('np.searchsorted')
+def m_searchsorted(ex, st, args, kwargs, node):
+    if len(args) != 3 or kwargs or not (isinstance(args[2], VStr) and args[2].concrete() in ('left', 'right')):
+        raise Unsupported('np.searchsorted calling pattern')
+    a, z = st.deref(args[0]), ex.need_num(st, args[1], node)
+    tail = getattr(a, 'tail', None)
+    if not (is_vec1(a) and getattr(a, 'neginf_head', False) and tail is not None and getattr(tail, 'asc', False)):
+        raise Unsupported("np.searchsorted: only on (-inf, ascending vector)")
+    used("np.searchsorted((-inf, s_0 <= .. <= s_{n-1}), z, side) -> 1 + i with s[i-1] <= z < s[i] for 'right' (insertion point after equal "
+         "elements), s[i-1] < z <= s[i] for 'left'")
+    n, zr = Z(tail.shape[0]), to_real(z)
+    i = ex.fresh_int('ins')
+    if args[2].concrete() == 'right':
+        st.assume(0 <= i, i <= n, z3.Implies(i > 0, tail.t[i - 1] <= zr), z3.Implies(i < n, zr < tail.t[i]))
+    else:
+        st.assume(0 <= i, i <= n, z3.Implies(i > 0, tail.t[i - 1] < zr), z3.Implies(i < n, zr <= tail.t[i]))
+    st.ghost['searchsorted'] = st.ghost.get('searchsorted', []) + [dict(i=i, z=zr, s=tail.t, n=n)]
+    return i + 1
+
+
+_orig_method8 = M.method
+
+
+def method8(ex, st, recv, name, args, kwargs, node):
+    r = st.deref(recv)
+    if name == 'sort' and not args and not kwargs and is_vec1(r) and r.tag == 'rvec' and isinstance(node, ast.Call) \
+            and isinstance(node.func, ast.Attribute) and isinstance(node.func.value, ast.Name) and st.vars.get(node.func.value.id) is r:
+        used('v.sort() -> v is replaced by its ascending rearrangement (same multiset: the number of elements <= z is unchanged for every z)')
+        n = Z(r.shape[0])
+        s = ex.fresh('sorted', RA)
+        i2 = z3.Int('i2!m')
+        st.assume(ascp(s, n))
+        st.assume(z3.ForAll([_i, i2], z3.Implies(z3.And(0 <= _i, _i <= i2, i2 < n), s[_i] <= s[i2]), patterns=[z3.MultiPattern(s[_i], s[i2])]))
+        st.assume(z3.ForAll([_z1], cntle(s, n, _z1) == cntle(r.t, n, _z1), patterns=[cntle(s, n, _z1)]))
+        out = rvec(r.shape[0], s)
+        out.asc, out.sorted_from = True, r.t
+        st.vars[node.func.value.id] = out
+        return NONE
+    return _orig_method8(ex, st, recv, name, args, kwargs, node)
+
+
+M.method = method8
